@@ -47,7 +47,7 @@ def run_task(task):
     try:
         cfg = task["cfg"]
         rng = np.random.default_rng([task["seed"], cfg["id"], 18])
-        rows, samples = inputs.make_table(rng, cfg["n_mut"], 2, string_ids=True)
+        rows, samples = inputs.make_table(rng, cfg["n_mut"], 2, string_ids=True, junk_from=cfg.get("junk_from"))
         in_file = os.path.join(tmp, "in.tsv")
         inputs.write_table(rows, in_file)
         args = ["run", "-i", in_file, "-n", str(cfg["iters"]), "-b", "1", "--num-particles", "5", "--grid-size", "11",
@@ -165,6 +165,47 @@ def inproc_task(task):
     return None, part
 
 
+def hashseed_task(task):
+    """The same seeded chain on string-named synthetic data in child interpreters with different PYTHONHASHSEED."""
+    from vlib.harness import Partial
+
+    part = Partial()
+    cfg = task["cfg"]
+    outs = []
+    for h in task["hashseeds"]:
+        env = harness.child_env({"PYTHONHASHSEED": str(h)})
+        try:
+            p = subprocess.run([harness.PYTHON, "-m", "vlib.c18_child", json.dumps(cfg)], env=env, cwd=harness.VERIF_DIR,
+                               stdout=subprocess.PIPE, stderr=subprocess.PIPE, timeout=900, text=True)
+        except subprocess.TimeoutExpired:
+            part.inconc("hash-seed child watchdog fired")
+            return None, part
+        if p.returncode != 0:
+            part.count("hashseed_children_failed_owned_by_C19")
+            return None, part
+        outs.append(json.loads(p.stdout.strip().splitlines()[-1]))
+        part.count("evaluations")
+        part.count("hashseed_children")
+    part.see("hashseed|%s|%s|%s" % (cfg["proposal"], cfg["outlier_prob"], cfg["n"]))
+    part.count("hashseed_entries_with_2_outliers_below_an_internal_clone",
+               outs[0]["stats"]["entries_with_2_outliers_and_depth"])
+    for o in outs[1:]:
+        part.count("hashseed_comparisons")
+        if o["fp"] != outs[0]["fp"]:
+            first = next((i for i, (x, y) in enumerate(zip(o["fp"], outs[0]["fp"])) if x != y), None)
+            part.violation("seeded chain is not reproducible: its trace depends on the interpreter's hash seed",
+                           {"cfg": cfg, "hashseeds": [outs[0]["hashseed"], o["hashseed"]], "first_differing_entry": first,
+                            "a": outs[0]["fp"][first] if first is not None else None,
+                            "b": o["fp"][first] if first is not None else None})
+            break
+    part.sample({"cfg": cfg, "hashseeds": task["hashseeds"], "stats": outs[0]["stats"]}, limit=1)
+    return None, part
+
+
+def dispatch(task):
+    return {"cli": run_task, "hashseed": hashseed_task, "inproc": inproc_task}[task["kind"]](task)
+
+
 def environments(chains, quick):
     envs = [{"name": "reference", "hashseed": 0}]
     envs.append({"name": "hashseed 12345", "hashseed": 12345, "nice": True})
@@ -213,13 +254,13 @@ def run(ctx):
                     k += 1
     # hash-seed stress: many outliers, frequent subtree updates, string ids -- any set / dict-of-strings iteration
     # order that reaches the sampler shows up as a trace that depends on PYTHONHASHSEED
-    stress = [{"id": 100, "proposal": "semi-adapted", "outlier_prob": 0.4, "clustered": False, "chains": 1, "n_mut": 6,
-               "iters": 40, "subtree": 0.7, "run_seed": 77 + ctx.seed, "stress": True}]
+    stress = [{"id": 100, "proposal": "semi-adapted", "outlier_prob": 0.5, "clustered": False, "chains": 1, "n_mut": 10,
+               "iters": 40, "subtree": 0.7, "run_seed": 77 + ctx.seed, "stress": True, "junk_from": 5}]
     if not quick:
         stress.append({"id": 101, "proposal": "fully-adapted", "outlier_prob": 0.3, "clustered": True, "chains": 1,
-                       "n_mut": 9, "iters": 40, "subtree": 0.5, "run_seed": 78 + ctx.seed, "stress": True})
+                       "n_mut": 12, "iters": 40, "subtree": 0.5, "run_seed": 78 + ctx.seed, "stress": True, "junk_from": 5})
         stress.append({"id": 102, "proposal": "bootstrap", "outlier_prob": 0.5, "clustered": False, "chains": 2,
-                       "n_mut": 5, "iters": 40, "subtree": 1.0, "run_seed": 79 + ctx.seed, "stress": True})
+                       "n_mut": 9, "iters": 40, "subtree": 1.0, "run_seed": 79 + ctx.seed, "stress": True, "junk_from": 5})
     cfgs = cfgs + stress
     tasks = []
     for cfg in cfgs:
@@ -228,7 +269,18 @@ def run(ctx):
             envs = [{"name": "hashseed %s" % h, "hashseed": h} for h in (0, 1, 2, 3)]
         for env in envs:
             tasks.append({"seed": ctx.seed, "cfg": cfg, "env": env, "slot": len(tasks)})
-    results = ctx.map("checks.c18", "run_task", tasks, timeout=2400, workers=12)
+    itasks = [{"kind": "inproc", "seed": ctx.seed, "shard": i, "count": 12 if quick else 150} for i in range(16)]
+    htasks = []
+    for i in range(10 if quick else 32):
+        htasks.append({"kind": "hashseed", "hashseeds": [0, 1, 2, 3] if i % 2 == 0 else [0, 12345, "random"],
+                       "cfg": {"data_seed": ctx.seed * 100 + i, "run_seed": 500 + i, "n": [6, 8, 5][i % 3], "D": 1 + i % 2,
+                               "kind": ["moderate", "smooth"][i % 2], "outlier_prob": [0.3, 0.5][i % 2],
+                               "proposal": ["semi-adapted", "fully-adapted", "bootstrap"][i % 3], "subtree": [0.7, 1.0][i % 2],
+                               "iters": 60, "particles": 4}})
+    for t in tasks:
+        t["kind"] = "cli"
+    all_results = ctx.map("checks.c18", "dispatch", tasks + htasks + itasks, timeout=2400)
+    results = all_results[: len(tasks)]
     by_cfg = {}
     for t, r in zip(tasks, results):
         if r is not None:
@@ -271,8 +323,8 @@ def run(ctx):
                     break
         ctx.sample({"cfg": cfg, "environments": [e["name"] for e, _ in runs],
                     "completion_orders": sorted(list(o) for o in orders), "entries_per_chain": len(next(iter(ref["fp"].values())))})
-    itasks = [{"seed": ctx.seed, "shard": i, "count": 12 if quick else 150} for i in range(16)]
-    ctx.map("checks.c18", "inproc_task", itasks, timeout=2400)
+    if ctx.counters.get("hashseed_comparisons", 0) < 6:
+        ctx.inconc("too few hash-seed comparisons")
     if ctx.counters.get("comparisons", 0) < 6:
         ctx.inconc("too few run comparisons")
     if ctx.counters.get("inprocess_pairs_visiting_a_tree_without_clones", 0) < 3:
